@@ -239,3 +239,55 @@ Print Assumptions C09_reset_keeping_triggers_refuted.
 Theorem C09_port_names_total ports A : port_names_go A ports <> AssertErr.
 Proof. exact (port_names_go_total ports A). Qed.
 Print Assumptions C09_port_names_total.
+
+(* ------------------------------------------------------------------ audit follow-up *)
+(* the hypothesis of C09_reset_rerun_same_trace is satisfiable by real engine code: the concrete step
+   "commit every pending slot (_PyEngineState.commit), then _PyTimeline.advance" with the output "time and all
+   signal values / memory rows" reads only observed fields ... *)
+Theorem C09_step_commit_advance_respects e1 e2 : observe e1 = observe e2 ->
+  observe (step_commit_advance e1) = observe (step_commit_advance e2) /\ out_values e1 = out_values e2.
+Proof. exact (step_commit_advance_respects e1 e2). Qed.
+Print Assumptions C09_step_commit_advance_respects.
+
+(* ... hence for every engine state and every number of steps the rerun after reset() produces the trace of a
+   new simulator.  (The process bodies run between two commits are compiled user code: their model is C08's
+   Engine.v, whose state type is a different record; it is not instantiated here.) *)
+Theorem C09_reset_rerun_commit_advance n e :
+  trace step_commit_advance out_values n (reset e) = trace step_commit_advance out_values n (fresh e).
+Proof. exact (reset_rerun_commit_advance n e). Qed.
+Print Assumptions C09_reset_rerun_commit_advance.
+
+Example C09_step_example :
+  let e := mkEng [SSig (mkSig 0 1 2 3); SMem (mkMem [5; 6] [5; 6] [(1, 9)] 0)] [0; 1] 3 [(0, 10); (1, 7)] [] [] 0 [] true in
+  trace step_commit_advance out_values 3 e = [[3; 1; 5; 6]; [7; 2; 5; 9]; [10; 2; 5; 9]] /\
+  trace step_commit_advance out_values 3 (reset e) = [[0; 0; 5; 6]; [0; 0; 5; 6]; [0; 0; 5; 6]].
+Proof. split; vm_compute; reflexivity. Qed.
+
+(* extract() into a directory that already holds other files: they stay, the planned files are added *)
+Theorem C09_extract_into_nonempty_dir fs d :
+  NoDup (map fst d ++ map fst fs) -> extract d fs = d ++ plan_dir fs.
+Proof. exact (extract_app fs d). Qed.
+Print Assumptions C09_extract_into_nonempty_dir.
+
+(* add_file / extract with their checks: a plan accepted by add_file has no absolute name; extract refuses
+   (AssertionError) exactly when some name is absolute or has a ".." component, and otherwise is `extract` *)
+Theorem C09_plan_checks fs k c fs' d :
+  (add_file_checked fs k c = FOk fs' -> add_file fs k c = Some fs' /\ is_abs k = false) /\
+  (forallb (fun f => negb (is_abs (fst f) || has_dotdot (fst f))) fs = true ->
+   extract_checked d fs = Some (extract d fs)) /\
+  (forall d', extract_checked d fs = Some d' -> d' = extract d fs).
+Proof.
+  split; [exact (add_file_checked_ok fs k c fs')|]. split; [exact (extract_checked_ok fs d)|exact (extract_checked_sound fs d)].
+Qed.
+Print Assumptions C09_plan_checks.
+
+Example C09_plan_checks_example :
+  is_abs [49; 58; 47; 120] = true /\ is_abs [67; 58; 120] = false /\ has_dotdot [97; 47; 46; 46; 47; 98] = true /\
+  has_dotdot [97; 47; 46; 46; 98] = false /\
+  extract_checked [([107], [1])] [([97], CBytes [2]); ([107], CBytes [3])] = Some [([107], [3]); ([97], [2])].
+Proof. repeat split; vm_compute; reflexivity. Qed.
+
+(* DomainRenamer with an empty map changes no fragment *)
+Theorem C09_rename_nil f : rename_frag [] f = f.
+Proof. exact (rename_frag_nil f). Qed.
+Print Assumptions C09_rename_nil.
